@@ -310,7 +310,7 @@ UnaryChecks(cfg, pre, post, ln) ==
                   \A j \in 1..(Len(ch) - 1) : GrowOK(ch[j], ch[j + 1], ch[j] + 1, x.max)),
               Chk("C14", "long-run:one-allocation-per-capacity-change", ln.out = "ok", ln.nalloc = Len(ch) - 1),
               Chk("C14", "long-run:O(log n)-allocations", ln.out = "ok", ln.nalloc <= GrowthSteps(Max(ch[1], 1), s0 + n)),
-              Chk("C14", "long-run:O(n)-relocations", ln.out = "ok" /\ ln.nreloc >= 0, ln.nreloc <= 3 * (s0 + n) + 3) }
+              Chk("C14", "long-run:O(n)-relocations", ln.out = "ok" /\ ln.nreloc >= 0, ln.nreloc <= 3 * (s0 + n) + 64) }
     [] OTHER -> { Chk("INTERNAL", "unknown-op", TRUE, FALSE) }
 
 (***************************************************************************)
